@@ -204,6 +204,10 @@ impl Drop for Scratch {
     }
 }
 
+/// content marker of files that are materialised as symbolic links to regular files
+const LINK_MARK: &[u8] = b"\x01via-symlink\x01";
+static LINK_N: AtomicU64 = AtomicU64::new(0);
+
 fn materialise(dir: &Path, tree: &Tree) {
     std::fs::create_dir_all(dir).expect("layer dir");
     for (p, n) in tree {
@@ -214,7 +218,21 @@ fn materialise(dir: &Path, tree: &Tree) {
                 if let Some(parent) = full.parent() {
                     std::fs::create_dir_all(parent).expect("mkdir parent");
                 }
-                std::fs::write(&full, b).expect("write file");
+                if b.starts_with(LINK_MARK) {
+                    // a file the layer provides THROUGH A SYMBOLIC LINK: the bytes live outside the
+                    // layer directory, the path inside it is a link to them
+                    let store = dir.parent().unwrap_or(dir).join("_link_targets");
+                    std::fs::create_dir_all(&store).expect("link target dir");
+                    let n = LINK_N.fetch_add(1, Ordering::Relaxed);
+                    let target = store.join(format!("t{}", n));
+                    std::fs::write(&target, b).expect("write link target");
+                    #[cfg(unix)]
+                    std::os::unix::fs::symlink(&target, &full).expect("symlink");
+                    #[cfg(not(unix))]
+                    std::fs::write(&full, b).expect("write file");
+                } else {
+                    std::fs::write(&full, b).expect("write file");
+                }
             }
         }
     }
@@ -1079,6 +1097,14 @@ fn lower_choices(probe: &Config) -> Vec<(&'static str, Tree)> {
         }
     }
     v.push(("other languages only", others));
+    // files that the layer provides through symbolic links (to regular files outside the layer)
+    {
+        let mut linked = LINK_MARK.to_vec();
+        linked.extend_from_slice(b"linked a");
+        let mut linked2 = LINK_MARK.to_vec();
+        linked2.extend_from_slice(b"linked d/a");
+        v.push(("symlinked files", [("a".to_string(), Node::File(linked)), ("d".to_string(), Node::Dir), ("d/a".to_string(), Node::File(linked2)), ("d/plain.bin".to_string(), file(b"p"))].into_iter().collect()));
+    }
     // an INVALID compressed file at the path where a lower layer ("d/e/c+d/b.SFX") holds a valid
     // one: the highest layer that has the file wins, so reading it must fail, not fall through
     v.push(("invalid d/b.SFX", [("d".to_string(), Node::Dir), (format!("d/b{}", sfx), file(b"\x77 junk, not a stream"))].into_iter().collect()));
@@ -1102,10 +1128,13 @@ pub fn configs(tier: Tier) -> Vec<Config> {
             // the empty layer adds nothing over [typed]; the look-up-only layers (other languages,
             // invalid stream) are judged by the per-state observers, one level less is enough
             let depth = if ci == 0 || ci >= 7 { d2 - 1 } else { d2 };
+            let _ = cn;
             out.push(mk(loc, lang, vec![typed.clone(), c.clone()], format!("{:?}/{:?} layers=[typed, {}]", loc, lang, cn), depth));
         }
+        // a layer whose files are symbolic links, above a layer with plain files at the same paths
+        out.push(mk(loc, lang, vec![typed.clone(), choices[2].1.clone(), choices[8].1.clone()], format!("{:?}/{:?} layers=[typed, a+d/a, symlinked files]", loc, lang), 2));
         // a higher lower-layer holding undecodable files over valid ones below
-        out.push(mk(loc, lang, vec![typed.clone(), choices[4].1.clone(), choices[8].1.clone()], format!("{:?}/{:?} layers=[typed, d/e/c+d/b.SFX, invalid d/b.SFX]", loc, lang), 2));
+        out.push(mk(loc, lang, vec![typed.clone(), choices[4].1.clone(), choices[9].1.clone()], format!("{:?}/{:?} layers=[typed, d/e/c+d/b.SFX, invalid d/b.SFX]", loc, lang), 2));
         // start from a populated top layer: temporary/backup-style siblings of every write path
         {
             let mut c = mk(loc, lang, vec![typed.clone(), choices[1].1.clone()], format!("{:?}/{:?} layers=[typed, a] top starts with .tmp/.bak/~ siblings", loc, lang), d1);
@@ -1273,7 +1302,7 @@ pub fn explore(ctx: &Ctx, which: Which) -> Outcome {
     for (ci, cfg) in cfgs.into_iter().enumerate() {
         // the sibling-files start state and the other-languages-only layer exist for the write /
         // look-up side (C12, C14); the listing observers of C13 gain nothing from them
-        if which == Which::C13 && (cfg.name.contains("siblings") || cfg.name.contains("other languages only")) {
+        if which == Which::C13 && (cfg.name.contains("siblings") || cfg.name.contains("other languages only") || cfg.name.contains("a+d/a, symlinked files")) {
             continue;
         }
         let depth = cfg.depth;
